@@ -59,6 +59,8 @@ META = {
 THEOREMS = [
     "C11_history_independence",
     "C11_environment_independence",
+    "C11_retry_after_crash",
+    "C11_retry_after_crash_necessary",
     "C11_environment_obligation_necessary",
     "C11_nonvacuous_environment",
     "C11_generated_obligation",
@@ -898,6 +900,189 @@ def env_stage(ctx, data, configs, scratch: Path, base, trace: Trace):
 
 
 # ---------------------------------------------------------------------------
+# histories that re-use the same input-file PATHS (user force field / names files)
+#
+# An event is ["write", file, content-id] (the file under the history's directory gets new
+# content) or ["run", {"ff":..., "dat":..., "names":...}] (one main_driver run; "dat"/"names"
+# are file names under the history's directory, "dat" may be "PKG:<file>" = the package's own
+# data file handed in as --userff).  ORACLE: the same request - same structure, same options,
+# the same file CONTENTS - executed alone in a fresh process (outcome = exception class or
+# PQR bytes).  The fresh process gets snapshot copies of the files in its own directory.
+
+
+def uff_contents():
+    ff = (DATA / "custom-ff.dat").read_text()
+    nm = (DATA / "custom.names").read_text()
+    lines = ff.splitlines(True)
+    tmp = Path(core.VERIF) / "harness"  # altered_copy only looks at the suffix and the bytes
+    del tmp
+    import tempfile
+
+    with tempfile.TemporaryDirectory() as td:
+        q = Path(td) / "x.dat"
+        q.write_text(ff)
+        nudged = altered_copy(q).decode("latin-1")
+    bad = "ALA\tXX\tabc\tdef\tZZ\n"
+    n2 = _re.sub(r"\s*<residue>\s*<name>WAT</name>.*?</residue>", "", nm, count=1, flags=_re.S)
+    return {
+        "A": ff,  # tests/data/custom-ff.dat
+        "B": nudged,  # every radius nudged
+        "BAD-end": ff + bad,  # every record parses, then one unparsable line
+        "BAD-mid": "".join(lines[: len(lines) // 2]) + bad + "".join(lines[len(lines) // 2 :]),
+        "N1": nm,  # tests/data/custom.names
+        "N2": n2,  # the same without the WAT mapping (waters get no parameters)
+    }
+
+
+def uff_run(dat, names, ff=None):
+    return ["run", {"ff": ff, "dat": dat, "names": names}]
+
+
+UFF_INIT = [["write", "N1.names", "N1"], ["write", "N2.names", "N2"]]
+UFF_SHAPES = {
+    # (a) the same --userff path with another names file
+    "a-other-names": UFF_INIT + [["write", "U.dat", "A"], uff_run("U.dat", "N1.names"), uff_run("U.dat", "N2.names"), uff_run("U.dat", "N1.names"), uff_run("U.dat", "N2.names")],
+    # (b) content of the file changed between runs, path unchanged
+    "b-content-changed": UFF_INIT + [["write", "U.dat", "A"], uff_run("U.dat", "N1.names"), ["write", "U.dat", "B"], uff_run("U.dat", "N1.names"), ["write", "U.dat", "A"], uff_run("U.dat", "N1.names")],
+    # (c) a failing run followed by the identical retry (then the repaired file)
+    "c-fail-retry-end": UFF_INIT + [["write", "U.dat", "BAD-end"], uff_run("U.dat", "N1.names"), uff_run("U.dat", "N1.names"), ["write", "U.dat", "A"], uff_run("U.dat", "N1.names")],
+    "c-fail-retry-mid": UFF_INIT + [["write", "U.dat", "BAD-mid"], uff_run("U.dat", "N1.names"), uff_run("U.dat", "N1.names"), uff_run("U.dat", "N1.names")],
+    # (d) a run followed by the same run
+    "d-same-again": UFF_INIT + [["write", "U.dat", "A"], uff_run("U.dat", "N1.names"), uff_run("U.dat", "N1.names"), uff_run("U.dat", "N1.names")],
+    # (e) built-in force fields interleaved, incl. the package's own DAT path handed in as --userff with other names
+    "e-builtin-interleaved": UFF_INIT + [["write", "U.dat", "A"], uff_run(None, None, "AMBER"), uff_run("U.dat", "N1.names"), uff_run(None, None, "AMBER"), uff_run("PKG:AMBER.DAT", "N2.names"), uff_run(None, None, "AMBER"), uff_run(None, None, "PARSE"), uff_run("U.dat", "N2.names"), uff_run("PKG:AMBER.DAT", "N1.names")],
+}
+UFF_THOROUGH = {
+    "a-other-names-reversed": UFF_INIT + [["write", "U.dat", "A"], uff_run("U.dat", "N2.names"), uff_run("U.dat", "N1.names"), uff_run("U.dat", "N2.names")],
+    "b-names-content-changed": [["write", "U.dat", "A"], ["write", "N.names", "N1"], uff_run("U.dat", "N.names"), ["write", "N.names", "N2"], uff_run("U.dat", "N.names"), ["write", "N.names", "N1"], uff_run("U.dat", "N.names")],
+    "c-fail-then-other-file": UFF_INIT + [["write", "U.dat", "BAD-mid"], uff_run("U.dat", "N1.names"), ["write", "U.dat", "B"], uff_run("U.dat", "N1.names"), ["write", "U.dat", "BAD-end"], uff_run("U.dat", "N1.names"), uff_run("U.dat", "N1.names")],
+}
+
+
+def uff_random_shape(rng, n):
+    ev = UFF_INIT + [["write", "U.dat", "A"]]
+    for _ in range(n):
+        r = rng.random()
+        if r < 0.3:
+            ev.append(["write", "U.dat", rng.choice(["A", "B", "BAD-end", "BAD-mid"])])
+        elif r < 0.45:
+            ev.append(uff_run(None, None, rng.choice(["AMBER", "PARSE"])))
+        elif r < 0.55:
+            ev.append(uff_run("PKG:AMBER.DAT", rng.choice(["N1.names", "N2.names"])))
+        else:
+            ev.append(uff_run("U.dat", rng.choice(["N1.names", "N2.names"])))
+    if ev[-1][0] != "run":
+        ev.append(uff_run("U.dat", "N1.names"))
+    return ev
+
+
+def uff_key(struct, req, state):
+    """What a run depends on, if the property holds: options and file CONTENTS."""
+    dat = req["dat"]
+    return (struct, req["ff"] or "", (dat if (dat or "").startswith("PKG:") else state.get(dat, "?")) if dat else "", state.get(req["names"], "?") if req["names"] else "")
+
+
+def uff_cfg(struct, req, d: Path):
+    opts = []
+    if req["ff"]:
+        opts.append(f"--ff={req['ff']}")
+    if req["dat"]:
+        dat = str(core.REPO / "pdb2pqr" / "dat" / req["dat"][4:]) if req["dat"].startswith("PKG:") else str(d / req["dat"])
+        opts.append(f"--userff={dat}")
+    if req["names"]:
+        opts.append(f"--usernames={d / req['names']}")
+    return (str(DATA / struct), opts)
+
+
+def uff_outcome(b, err):
+    cls = err.split(":")[0] if err else None
+    return (cls, None if cls else b)
+
+
+def uff_fresh(shapes, structs, scratch: Path, contents):
+    """Fresh-process outcome of every distinct request that occurs in the histories."""
+    keys = {}
+    for struct in structs:
+        for events in shapes.values():
+            state = {}
+            for ev in events:
+                if ev[0] == "write":
+                    state[ev[1]] = ev[2]
+                else:
+                    keys.setdefault(uff_key(struct, ev[1], state), (ev[1], dict(state)))
+    jobs, order = [], []
+    for k, (key, (req, state)) in enumerate(sorted(keys.items())):
+        d = scratch / "uff_fresh" / str(k)
+        d.mkdir(parents=True, exist_ok=True)
+        for fn, cid in state.items():
+            (d / fn).write_text(contents[cid])
+        jobs.append((f"uff{k}", uff_cfg(key[0], req, d), "0"))
+        order.append(key)
+    res = run_children(jobs, scratch)
+    fresh = {}
+    for (name, k), (b, info, _) in res.items():
+        if info.get("died"):
+            fresh[order[k]] = ("child-died", None)
+        else:
+            fresh[order[k]] = uff_outcome(b, info.get("err"))
+    shutil.rmtree(scratch / "uff_fresh", ignore_errors=True)
+    return fresh
+
+
+def uff_execute(events, struct, d: Path, scratch: Path, contents, fresh):
+    """Run one history in THIS process. -> [(event index, request, key, outcome, expected)] for the runs that differ, and the count of runs"""
+    d.mkdir(parents=True, exist_ok=True)
+    state, diffs, runs = {}, [], []
+    for i, ev in enumerate(events):
+        if ev[0] == "write":
+            (d / ev[1]).write_text(contents[ev[2]])
+            state[ev[1]] = ev[2]
+            continue
+        key = uff_key(struct, ev[1], state)
+        b, err = run_inproc(uff_cfg(struct, ev[1], d), scratch, "u")
+        got = uff_outcome(b, err)
+        runs.append((i, key, got))
+        if key in fresh and got != fresh[key]:
+            diffs.append((i, ev[1], key, got, fresh[key], err))
+    return diffs, runs
+
+
+def uff_describe(oc):
+    cls, b = oc
+    return f"fails with {cls}" if cls else (f"writes {len(b)} bytes ({b.count(b'ATOM')} ATOM records)" if b is not None else "writes no output")
+
+
+def userff_stage(ctx, scratch: Path):
+    contents = uff_contents()
+    shapes = dict(UFF_SHAPES)
+    structs = ["1AJJ.pdb"]
+    if ctx.thorough:
+        shapes.update(UFF_THOROUGH)
+        structs.append("1A1P.pdb")
+    shapes["random"] = uff_random_shape(ctx.rng, 30 if ctx.thorough else 7)
+    fresh = uff_fresh(shapes, structs, scratch, contents)
+    died = [k for k, v in fresh.items() if v[0] == "child-died"]
+    if died:
+        ctx.broke("harness-error", "fresh-process oracle of the user-force-field histories died", str(died[:3]))
+    ctx.cov["userff_fresh_requests"] = {"|".join(k): uff_describe(v) for k, v in sorted(fresh.items())}
+    for struct in structs:
+        for shape, events in shapes.items():
+            d = scratch / f"uff_{shape}_{struct.split('.')[0]}"
+            diffs, runs = uff_execute(events, struct, d, scratch, contents, fresh)
+            for n, (i, key, got) in enumerate(runs):
+                ctx.count(f"userff:{shape}")
+                ctx.evaluated(("userff", shape, struct, i), n > 0 and fresh.get(key, ("child-died",))[0] != "child-died")
+            for i, req, key, got, want, err in diffs[:2]:
+                if want[0] == "child-died":
+                    continue
+                field = first_diff_field(want[1], got[1]) if (got[0] is None and want[0] is None) else f"outcome:{got[0] or 'success'}-vs-{want[0] or 'success'}"
+                sig = {"kind": "userff-history", "shape": shape.split("-")[0] if shape != "random" else "random", "structure": struct, "field": field}
+                prior = [json.dumps(e) for e in events[:i]]
+                ctx.fail(sig, f"{struct}: run #{i} of the in-process history '{shape}' ({json.dumps(req)} with file contents {key[2] or '-'}/{key[3] or '-'}) {uff_describe(got)}, the same request alone in a fresh process {uff_describe(want)}: {field}", {"kind": "userff-history", "shape": shape, "struct": struct, "events": events[: i + 1], "at": i, "history": prior[-12:] + [json.dumps(events[i])], "first_error": err})
+            shutil.rmtree(d, ignore_errors=True)
+
+
+# ---------------------------------------------------------------------------
 # diagnosis of a byte difference -> signature
 
 FIELDS10 = ["record", "serial", "atom-name", "res-name", "res-seq", "x", "y", "z", "charge", "radius"]
@@ -1159,6 +1344,7 @@ def run(ctx):
     seeds = SEEDS_THOROUGH if (ctx.thorough or escalate) else SEEDS_QUICK
     by = seeds_stage(ctx, configs, names, seeds, scratch, base)
     env_stage(ctx, data, configs, scratch, base, trace)
+    userff_stage(ctx, scratch)
     k0 = next(iter(configs))
     ctx.sample({"in_process_history_sample": "A-fail-A", "config": k0, "cfg": list(configs[k0]), "bytes": len(base.get(k0) or b""), "sha256": hashlib.sha256(base.get(k0) or b"").hexdigest()})
     for name, runs in list(by.items())[:2]:
@@ -1213,6 +1399,16 @@ def replay(ctx, data):
             outs.add(hashlib.sha256(b or b"").hexdigest())
         print(f"replay: {len(outs)} distinct outputs over seeds {seeds}")
         return 1 if len(outs) > 1 else 0
+    if kind == "userff-history":
+        import_all()
+        contents = uff_contents()
+        events, struct = case["events"], case["struct"]
+        fresh = uff_fresh({"replay": events}, [struct], scratch, contents)
+        diffs, runs = uff_execute(events, struct, scratch / "uff_replay", scratch, contents, fresh)
+        for i, req, key, got, want, err in diffs:
+            print(f"replay: run #{i} {json.dumps(req)} in the history {uff_describe(got)}; alone in a fresh process it {uff_describe(want)}")
+        print(f"replay: {len(runs)} runs in the history, {len(diffs)} differ from the same request in a fresh process")
+        return 1 if diffs else 0
     if kind == "environment":
         import_all()
         cfg = tuple(case["cfg"])
